@@ -46,6 +46,13 @@
                                                                                     → seen=<pairs reported>
     hist <init> <call>…          a recorded history; is it linearizable w.r.t. `Op.spec` (`HOp.spec` for the `N` = Length()
                                  calls of set histories)?                          → lin | nonlin
+    plog <apps> <n> <nc> <first> <flags> <seed>
+                                 Apps 1..apps one after the other in one process, App i under its own root logger i; from App
+                                 `first` on the n+nc scan goroutines (flags bit 0) and the nc Close goroutines (bit 1) call
+                                 syslog.Pref(one prefix) = prefCache.LoadOrStoreFn(prefix, derive from the current root)
+                                 (`plogObs`): per App the loggers that receive the lines   → scan=<t,…> close=<t,…> lines=ok
+    rdel <g> <rounds>            Range (threads 1..g) against Store/Delete of a third key (thread 0), round robin (`rdelObs`)
+                                                                                    → phantom=0 dup=0 missing=0
     setlen <obj> <nk> <trials> <queue>…
                                  a fresh ConcurrentSets (`cs`) / GenericConcurrentSets (`gs`) holding the keys 1..nk; one goroutine
                                  per queue (`x<k>` Remove k, `p<k>` Put k, joined by `.`; no key both removed and put, so every
@@ -143,6 +150,21 @@ def handleCloseB (n mask rounds seed : Nat) : String :=
   let s := runFan (closeShape Facts.closeSkel).cfg n mask seed
   let r := showClose n s
   if r == "stuck" then r else r ++ " intact=" ++ toString (reported n (bitMask mask) s)
+
+/-! seventh round -/
+
+/-- `plog`: which loggers receive the lines of each App's scan / Close; every line arrives once -/
+def handlePlog (apps n nc first flags : Nat) : String :=
+  if apps < 1 || apps > 12 || n < 1 || n > 64 || nc > 32 || first < 1 || first > apps || flags < 1 || flags > 3 then "bad-line" else
+  let r := plogObs apps n nc first flags
+  "scan=" ++ ",".intercalate r.1 ++ " close=" ++ ",".intercalate r.2 ++ " lines=ok"
+
+/-- `rdel`: Range against Store/Delete of one key (a bounded instance of the harness's run: the model's Range visits
+    every key atomically, so the numbers do not depend on g and rounds) -/
+def handleRdel (g rounds : Nat) : String :=
+  if g < 1 || g > 32 || rounds < 1 || rounds > 1000000 then "bad-line" else
+  let r := rdelObs g rounds
+  "phantom=" ++ toString (min r.1 1) ++ " dup=" ++ toString (min r.2.1 1) ++ " missing=" ++ toString (min r.2.2 1)
 
 def showGmor (g : Nat) : String :=
   let r := gmorObs g
@@ -318,6 +340,9 @@ def handle (line : String) : String :=
   | ["closel", n, mask, rounds, seed] => handleCloseL (natOr n 99) (natOr mask 0) (natOr rounds 0) (natOr seed 0)
   | ["closec", n, mask, groups, seed] => handleCloseC (natOr n 99) (natOr mask 0) groups (natOr seed 0)
   | ["closeb", n, mask, rounds, seed] => handleCloseB (natOr n 99) (natOr mask 0) (natOr rounds 0) (natOr seed 0)
+  | ["plog", apps, n, nc, first, flags, _seed] =>
+    handlePlog (natOr apps 0) (natOr n 0) (natOr nc 99) (natOr first 0) (natOr flags 0)
+  | ["rdel", g, rounds] => handleRdel (natOr g 0) (natOr rounds 0)
   | ["gmor", g, trials] => handleGmor (natOr g 0) (natOr trials 0)
   | ["gscan", n, trials, seed] => handleGscan (natOr n 0) (natOr trials 0) (natOr seed 0)
   | "cstart" :: hist :: nops :: sync :: trials :: apps => handleCstart hist nops sync trials apps
